@@ -9,7 +9,7 @@ Three legs on every run (DESIGN 3.3):
                     Duff's device); the model's own machine on the model's code (drv_c03 mrun) vs chibicc on everything;
   (c) scoping       generated shadowing programs; which declaration each use bound to: scope model vs chibicc vs gcc.
 """
-import os, json, hashlib, itertools, shutil
+import os, sys, json, hashlib, itertools, shutil
 from .framework import *
 
 PROPERTY = 'C03'
@@ -115,6 +115,29 @@ def sx(t):
         return f'(label {t[1]} {sx(t[2])})'
     raise ValueError(k)
 
+# Label names.  The model names labels by numbers and compares them for equality; the C text spells label n with an injective
+# naming scheme chosen per translation unit, so that name comparison in parse.c resolve_goto_labels is exercised on names that
+# are proper prefixes of one another (in both orders of definition) and on names that also denote something in another name
+# space (the functions m, c, in, r, f0, main; cleanup-ladder and dispatch-table spellings).
+LABEL_BASES = ['m', 'c', 'in', 'r', 'out', 'out_err', 'x', 'xx', 'L1', 'L10', 'L11', 'f0', 'main', 'o', 'op', 'op_add', 'op_add2',
+               'out_err2', 'xxx', 'L100', 'in_', 'r2']
+LABEL_SCHEMES = 5
+LABEL_SCHEME = 0
+
+def lname(n):
+    sch = LABEL_SCHEME
+    if sch == 1:
+        return 'L' + '1' * n                    # L1, L11, L111: every name a proper prefix of the next
+    if sch == 2:
+        return 'x' * (40 - n) if n < 40 else f'M{n}'    # the other way round: smaller numbers have the longer names
+    if sch == 3:
+        k, r = (n - 1) % len(LABEL_BASES), (n - 1) // len(LABEL_BASES)
+        return LABEL_BASES[k] + '_' * r
+    if sch == 4:
+        k, r = (n * 7) % len(LABEL_BASES), n // len(LABEL_BASES)
+        return LABEL_BASES[k] + '_' * r
+    return f'L{n}'
+
 def simple(t):
     return t[0] in ('m', 'break', 'continue', 'ret', 'goto', 'gotoval', 'block', 'skip', 'do')
 
@@ -134,9 +157,9 @@ def to_c(t, ind=1, style=0, safe=True):
     if k == 'ret':
         return p + 'return;\n'
     if k == 'goto':
-        return p + f'goto L{t[1]};\n'
+        return p + f'goto {lname(t[1])};\n'
     if k == 'gotoval':
-        return p + f'goto *&&L{t[1]};\n'
+        return p + f'goto *&&{lname(t[1])};\n'
     if k == 'block':
         return p + '{\n' + ''.join(to_c(x, ind + 1, style, True) for x in t[1]) + p + '}\n'
     if k == 'if':
@@ -161,7 +184,7 @@ def to_c(t, ind=1, style=0, safe=True):
     if k == 'default':
         return p + 'default:\n' + to_c(t[1], ind + 1, style, safe)
     if k == 'label':
-        return p + f'L{t[1]}:\n' + to_c(t[2], ind + 1, style, safe)
+        return p + f'{lname(t[1])}:\n' + to_c(t[2], ind + 1, style, safe)
     raise ValueError(k)
 
 def children(t):
@@ -753,6 +776,9 @@ def nest_batch(ctx, corr, tag, nf, mode, maxdepth, fixed=None, search=False):
     `search`: the tie is already known to be broken - only the implementation is compared with the reference compilers
     (every function of the unit), the model legs are skipped."""
     rng = ctx.rng
+    global LABEL_SCHEME
+    LABEL_SCHEME = rng.randrange(LABEL_SCHEMES)
+    corr.count(f'label-naming-scheme:{LABEL_SCHEME}')
     trees, streams, gens = [], [], []
     if fixed:
         for t, vs in fixed:
@@ -1326,6 +1352,10 @@ def totuple(x):
 # ------------------------------------------------------------------------------------------------ leg (c): scoping
 
 NAMES = ['x', 'y', 'z']
+# identifier families for the shadowing programs: proper prefixes of one another, spellings that differ in one trailing
+# character, and (through the labels below) the same spelling in several name spaces
+NAME_FAMILIES = [['x', 'y', 'z'], ['x', 'xx', 'xxx'], ['a', 'a1', 'a10'], ['out', 'out_err', 'o'], ['L1', 'L10', 'L11'],
+                 ['t', 'tt', 't_'], ['n', 'nn', 'n0'], ['x', 'xx', 'y']]
 
 class ScopeProg:
     """a program built together with its history of scope operations.  Every declaration carries a distinct id; a use
@@ -1337,6 +1367,7 @@ class ScopeProg:
         self.ops = []          # model history (driver syntax)
         self.items = []
         self.tagkind = {}
+        self.names = list(rng.choice(NAME_FAMILIES))
         self.stack = [{'var': set(), 'tag': set()}]
 
     def nid(self):
@@ -1352,7 +1383,7 @@ class ScopeProg:
         rng = self.rng
         kind = rng.choice(allow)
         ns = 'tag' if kind == 'tag' else 'var'
-        free = [n for n in NAMES if n not in self.stack[-1][ns]]
+        free = [n for n in self.names if n not in self.stack[-1][ns]]
         if not free:
             return
         n = rng.choice(free)
@@ -1382,8 +1413,8 @@ class ScopeProg:
         self.stack.pop()
         self.ops.append('leave')
 
-    def uses(self, ind, names=NAMES):
-        for n in names:
+    def uses(self, ind, names=None):
+        for n in (names or self.names):
             self.ops.append(f'use {n}')
             self.ops.append(f'usetag {n}')
             self.items.append(('use', ind, n))
@@ -1403,7 +1434,7 @@ class ScopeProg:
             else:
                 # for-init scope: the declaration is visible in the condition and the body, gone after the loop
                 self.enter()
-                n = rng.choice(NAMES)
+                n = rng.choice(self.names)
                 i = self.nid()
                 self.stack[-1]['var'].add(n)
                 self.ops.append(f'var {n} {i}')
@@ -1416,7 +1447,7 @@ class ScopeProg:
                     self.emit('}', ind)
                 else:
                     self.emit(f'for (int {n} = {i}, {once} = 1; {once}; {once} = 0)', ind)
-                    self.uses(ind + 1, [rng.choice(NAMES)])     # a single (non-compound) statement as the body
+                    self.uses(ind + 1, [rng.choice(self.names)])     # a single (non-compound) statement as the body
                 self.leave()
         self.uses(ind)
 
@@ -1427,7 +1458,7 @@ def scope_program(rng):
         sp.declare(0)
     calls = []
     for f in range(rng.choice([1, 2])):
-        params = rng.sample(NAMES, rng.choice([0, 1, 2]))
+        params = rng.sample(sp.names, rng.choice([0, 1, 2]))
         pid = [sp.nid() for _ in params]
         sp.emit(f"void fn{f}({', '.join('int ' + p for p in params) or 'void'}) {{", 0)
         sp.enter()
@@ -1436,13 +1467,24 @@ def scope_program(rng):
         # chibicc opens a second scope for the body; a valid program never redeclares a parameter there, so reserve them
         sp.enter()
         sp.stack[-1]['var'] |= set(params)
-        # labels: function scope, a name space of their own; spelled like the other identifiers, the same spelling in both functions
-        lab = rng.choice(NAMES)
-        lid = sp.nid()
+        # labels: function scope, a name space of their own; spelled like the other identifiers, the same spelling in both
+        # functions.  Two labels per function, one spelling a proper prefix of the other (either may be defined first), each
+        # reached by `goto name` or through `&&name`; each prints its id and jumps back.
+        lab = rng.choice(sp.names)
+        lab2 = lab + rng.choice(['1', '0', '_err', 'x', '_'])
+        if rng.random() < 0.5:
+            lab, lab2 = lab2, lab
+        lid, lid2 = sp.nid(), sp.nid()
+        jump = lambda l: f'goto {l};' if rng.random() < 0.6 else f'{{ void *p_ = &&{l}; goto *p_; }}'
         sp.items.append(('fn', lid))
-        sp.emit(f'goto {lab}; printf("label -1\\n"); back:;', 1)
+        sp.emit(f'{jump(lab)} printf("label -1\\n"); back:;', 1)
         sp.body(1, rng.choice([1, 2, 3]))
-        sp.emit(f'return; {lab}: printf("label {lid}\\n"); goto back;', 1)
+        sp.items.append(('fn', lid2))
+        sp.emit(f'{jump(lab2)} printf("label -2\\n"); back2:;', 1)
+        defs = [f'{lab}: printf("label {lid}\\n"); goto back;', f'{lab2}: printf("label {lid2}\\n"); goto back2;']
+        if rng.random() < 0.5:
+            defs.reverse()
+        sp.emit('return; ' + ' '.join(defs), 1)
         sp.leave(); sp.leave()
         sp.emit('}', 0)
         calls.append(f"fn{f}({', '.join(str(i) for i in pid)});")
@@ -1539,6 +1581,57 @@ def scope_batch(ctx, corr, count):
     return True
 
 
+# ------------------------------------------------------------------------------------------------ source pins (named labels)
+
+PIN_RESOLVE = ('for (Node *x = gotos; x; x = x->goto_next) { for (Node *y = labels; y; y = y->goto_next) { '
+               'if (!strcmp(x->label, y->label)) { x->unique_label = y->unique_label; break; } } '
+               'if (x->unique_label == NULL) error_tok(x->tok->next, "use of undeclared label"); } gotos = labels = NULL;')
+PIN_GET_IDENT = 'if (tok->kind != TK_IDENT) error_tok(tok, "expected an identifier"); return strndup(tok->loc, tok->len);'
+PIN_GOTO = ('Node *node = new_node(ND_GOTO, tok); node->label = get_ident(tok->next); node->goto_next = gotos; gotos = node; '
+            '*rest = skip(tok->next->next, ";"); return node;')
+PIN_LABEL = ('if (tok->kind == TK_IDENT && equal(tok->next, ":")) { Node *node = new_node(ND_LABEL, tok); '
+             'node->label = strndup(tok->loc, tok->len); node->unique_label = new_unique_name(); '
+             'node->lhs = stmt(rest, tok->next->next); node->goto_next = labels; labels = node; return node; }')
+PIN_LABEL_VAL = ('if (equal(tok, "&&")) { Node *node = new_node(ND_LABEL_VAL, tok); node->label = get_ident(tok->next); '
+                 'node->goto_next = gotos; gotos = node; *rest = tok->next->next; return node; }')
+
+def source_pins(ctx, corr):
+    """Model/Stmt.lean names labels abstractly and compares names for equality (`lookupLabel`; theorem C03_label_binds).  That is
+    a faithful reading of parse.c only while the label name of a `goto` / `&&name` / `name:` node is the whole identifier token
+    and resolve_goto_labels compares whole names (strcmp): the text of these five places is pinned.  A change there is a broken
+    tie (the search then runs the adversarial-name generators)."""
+    sys.path.insert(0, os.path.join(VERIF, 'tools', 'extract'))
+    try:
+        from common import read, function_body, strip_comments, ExtractError
+    finally:
+        sys.path.pop(0)
+    norm = lambda t: ' '.join(t.split())
+    try:
+        src = read(ctx.take_snapshot(False), 'parse.c')
+        body = lambda sig, what: norm(strip_comments(function_body(src, sig, what)))
+        checks = [
+            ('resolve_goto_labels', body(r'^static\s+void\s+resolve_goto_labels\s*\(void\)\s*\{', 'resolve_goto_labels') == PIN_RESOLVE),
+            ('get_ident', body(r'^static\s+char\s*\*\s*get_ident\s*\(Token \*tok\)\s*\{', 'get_ident') == PIN_GET_IDENT),
+            ('stmt: goto', PIN_GOTO in body(r'^static\s+Node\s*\*\s*stmt\s*\(Token \*\*rest, Token \*tok\)\s*\{', 'stmt')),
+            ('stmt: labeled statement', PIN_LABEL in body(r'^static\s+Node\s*\*\s*stmt\s*\(Token \*\*rest, Token \*tok\)\s*\{', 'stmt')),
+            ('unary: &&label', PIN_LABEL_VAL in body(r'^static\s+Node\s*\*\s*unary\s*\(Token \*\*rest, Token \*tok\)\s*\{', 'unary')),
+            ('function: resolve_goto_labels() called once', len(re.findall(r'\bresolve_goto_labels\s*\(\s*\)\s*;', strip_comments(src))) == 1),
+        ]
+    except Exception as e:      # ExtractError or a shape the helpers do not understand
+        corr.disagreements.append({'kind': 'source pin (named labels): parse.c no longer has the shape the model was written after',
+                                   'what': str(e)[:400]})
+        return False
+    ok = True
+    for what, good in checks:
+        corr.evaluations += 1
+        corr.count('source-pin')
+        if not good:
+            corr.disagreements.append({'kind': 'source pin (named labels)', 'what': f'parse.c {what}: text changed; Model/Stmt.lean '
+                                       '(gotoN/gotoValN/label, lookupLabel: whole-name equality) was written after a different text'})
+            ok = False
+    return ok
+
+
 # ------------------------------------------------------------------------------------------------ entry points
 
 def correspond(ctx, corr):
@@ -1550,9 +1643,13 @@ def correspond(ctx, corr):
                  'model code == chibicc; directed switch battery (9 controlling types x case sets at the type bounds, > 32 bits, negative, '
                  'ranges x default position x values around every boundary); directed jump battery (Duff\'s device with case labels in loops and ifs, '
                  'goto / goto *&&L into and out of loops and switches, backward gotos, chains of computed gotos); expression-level control vs gcc; hand-written corpus (Duff, '
-                 'computed-goto tables, goto into/out of loops).  (c) shadowing programs in all name spaces vs the scope model and gcc.  '
+                 'computed-goto tables, goto into/out of loops).  (c) shadowing programs in all name spaces (identifier families that are proper prefixes of one another; two labels per '
+                 'function, one a prefix of the other, reached by goto and through &&name) vs the scope model and gcc; label names of the '
+                 'nests spelled by one of 5 injective naming schemes (prefix chains in both orders, names of functions).  (d) source pins: '
+                 'resolve_goto_labels, get_ident, the goto / labeled-statement / &&label arms of parse.c.  '
                  'non-trivial = nest of depth >= 3 with >= 3 statement forms / run with >= 4 events / scope program with >= 6 bound uses; '
                  'distinct by text.')
+    pins_ok = source_pins(ctx, corr)
     if not corpus_run(ctx, corr):
         return
     if not switch_battery(ctx, corr):
@@ -1575,6 +1672,12 @@ def search(ctx, broken, corr):
     Directed first (cheap, aimed at the decision logic of the anchors): the complete switch battery with controlling values
     chosen against every case bound on every controlling type, then the jump idioms; then random nests."""
     c2 = Corr()
+    jump_battery(ctx, c2, search=True)
+    if c2.violations:
+        return c2.violations[0]
+    scope_batch(ctx, c2, 60)
+    if c2.violations:
+        return c2.violations[0]
     for rnd in range(3):
         switch_battery(ctx, c2, full=True, search=True)
         if c2.violations:
@@ -1629,7 +1732,10 @@ MANIFEST = {
                   'selects exactly the matching case for every 32/64-bit value), C03_preserve_partial (trace of the emitted code on the '
                   'machine = Spec.exec for structured nests), C03_preserve_goto_partial (the same for EVERY statement form - goto, computed '
                   'goto, case labels nested anywhere (Duff) - against the small-step abstract machine Spec.execG, for every parsed function '
-                  'that satisfies the language constraints), C03_execG_structured (the two abstract machines agree on structured nests).  Tied on every run by exact skeleton-text comparison with chibicc -S and by '
+                  'that satisfies the language constraints), C03_execG_structured (the two abstract machines agree on structured nests), C03_label_binds (every goto / &&label node '
+                  'receives the unique label of a labelled statement of exactly its own name in the same function; an undefined name is a '
+                  'diagnostic; tied by a source pin of resolve_goto_labels and the three places that record label names, and by generated '
+                  'programs whose label / object / typedef / tag / enumerator names are proper prefixes of one another).  Tied on every run by exact skeleton-text comparison with chibicc -S and by '
                   'trace comparison of compiled programs against gcc and the Lean spec; scoping against generated shadowing programs.',
     'level_note': 'C03_switch_select has the explicit hypothesis "lo <= hi in the controlling type" (the property\'s own wording). '
                   'Preservation is proved for all statement forms (goto, computed goto, Duff-style case labels included) under the explicit '
